@@ -180,12 +180,12 @@ func (server *Server) Scan(conn *redis.Conn, cursor int, opt redis.ScanOption) (
 	keys := db.Keys()
 	sort.Strings(keys)
 	matchKeys := proto.NewArray()
-	lastCursor := 0
-	for n, key := range keys {
-		lastCursor = n
-		if 0 < cursor && n <= cursor {
-			continue
-		}
+	// The cursor is the index of the next key to visit in sorted order; 0 starts an
+	// iteration and is returned when every key has been visited.
+	nextCursor := 0
+	for n := max(cursor, 0); n < len(keys); n++ {
+		nextCursor = n + 1
+		key := keys[n]
 		if !opt.MatchPattern.MatchString(key) {
 			continue
 		}
@@ -194,11 +194,11 @@ func (server *Server) Scan(conn *redis.Conn, cursor int, opt redis.ScanOption) (
 			break
 		}
 	}
-	if lastCursor == len(keys) {
-		lastCursor = 0
+	if len(keys) <= nextCursor {
+		nextCursor = 0
 	}
 	array := proto.NewArray()
-	array.Append(redis.NewBulkMessage(strconv.Itoa(lastCursor)))
+	array.Append(redis.NewBulkMessage(strconv.Itoa(nextCursor)))
 	array.Append(redis.NewArrayMessageWithArray(matchKeys))
 	return proto.NewMessageWithType(proto.ArrayMessage).SetArray(array), nil
 }
